@@ -38,16 +38,17 @@ class FrombufModel(Model):
         import re as _re
 
         fmt, b = args
-        if not (isinstance(fmt, StrV) and _re.fullmatch(r"[<>]((\d*)[BHIQx])+", fmt.s)):
-            raise Unsupported("struct.unpack format outside [<>](count)(B|H|I|Q|x)*")
-        width = {"B": 1, "H": 2, "I": 4, "Q": 8, "x": 1}
+        if not (isinstance(fmt, StrV) and _re.fullmatch(r"[<>]((\d*)[BHILQbhilqx])+", fmt.s)):
+            raise Unsupported("struct.unpack format outside [<>](count)(B|H|I|L|Q|b|h|i|l|q|x)*")
+        width = {"B": 1, "H": 2, "I": 4, "L": 4, "Q": 8, "b": 1, "h": 2, "i": 4, "l": 4, "q": 8, "x": 1}
         pos, out = 0, []
-        for cnt, code in _re.findall(r"(\d*)([BHIQx])", fmt.s[1:]):
+        for cnt, code in _re.findall(r"(\d*)([BHILQbhilqx])", fmt.s[1:]):
             for _ in range(int(cnt or 1)):
                 if code != "x":
                     w = width[code]
                     idx = range(w) if fmt.s[0] == "<" else range(w - 1, -1, -1)
-                    out.append(IntV(sum((b.at(z3.IntVal(pos + j)) * (1 << (8 * k)) for k, j in enumerate(idx)), z3.IntVal(0))))
+                    u = sum((b.at(z3.IntVal(pos + j)) * (1 << (8 * k)) for k, j in enumerate(idx)), z3.IntVal(0))
+                    out.append(IntV(u if code.isupper() else z3.If(u >= (1 << (8 * w - 1)), u - (1 << (8 * w)), u)))  # lower case: two's complement
                 pos += width[code]
         eng.may_raise("error", st, b.n == pos, node)
         return TupleV(out)
